@@ -275,7 +275,11 @@ class ScriptedApps:
                     await shim.checkpoint()
             elif op == "wait":
                 name = step[1]
-                if name not in self.fired:
+                if getattr(self, "polling", False):
+                    # tier B: triggers are fired from another thread; poll instead of sharing loop-bound events
+                    while name not in self.fired:
+                        await shim.sleep(0.003)
+                elif name not in self.fired:
                     ev = self.triggers.get(name)
                     if ev is None:
                         ev = self.triggers[name] = shim.new_event()
